@@ -126,7 +126,8 @@ pub fn insert_map_filter_count(entries: &[parser::LogRefEntry]) -> (r: usize)
     rules.sig(f, ret="res", world=True)
     rules.r1_logs(f, schema=LOG_SCHEMA)
     rules.r9_str_len(f, ["file_contents"])
-    rules.r8_thread(f, [r"AsyncTempFile::new\(", r"\.write_all\(", r"async_std::fs::rename\(", r"\.flush\("])
+    rules.r13_reroot(f, {"std::io::": "stdshim_io::"})
+    rules.r8_thread(f, [r"AsyncTempFile::new\(", r"\.write_all\(", r"async_std::fs::(?:rename|copy|write|remove_file)\(", r"(?<![\w])std::fs::(?:rename|copy|write|remove_file)\(", r"\.flush\(", r"\.sync_all\(", r"\.sync_data\("])
     closures = rules.r9_counter(f)
     for k, (cp, cexpr) in enumerate(closures):
         u.raw("""
@@ -196,15 +197,16 @@ pub fn counter_update_fn_%d(%s: u32) -> (r: Option<u32>)
         "first >= 1", "first == old(w).counter", "n_missing_all(entries@) > 0",
         ("C01.nowrap", "w.counter <= u32::MAX"),
     ], nth=0)
-    f.before_stmt("let insert_pos = entry.position().character();", "proof { lemma_n_missing_mono(entries@, it.index@ + 1, entries@.len() as int); assert(missing(entries@[it.index@]));"
-                  " assert(n_missing(entries@, it.index@ + 1) == n_missing(entries@, it.index@) + 1); }\n            ")
+    f.before_stmt("let insert_pos = entry.position().character();", "proof { lemma_n_missing_mono(entries@, it.index@ + 1, entries@.len() as int);\n"
+                  "                assert(missing(entries@[it.index@])); // [C03.splice,C05.same,C13.unusable]\n"
+                  "                assert(n_missing(entries@, it.index@ + 1) == n_missing(entries@, it.index@) + 1); }\n            ")
     # ghost: remember the ID carried by this token
     f.after_stmt("let reference_id =", " proof { let ghost ids0 = ids; ids = ids.push(reference_id as int);"
                  " lemma_out_ids_prefix(c, entries@, ids0, ids, it.index@); }")
     # the complete new content is declared before the file is moved into place
-    f.before(r"match\s+async_std::fs::rename\(", "proof { lemma_ids_consec(ids, first, n_missing_all(entries@));"
-             " assert(is_token_insertion(c, entries@, edited(c, entries@, ids)));"
-             " declare_intended(w, path@, scratch_file.file.accepted()); }\n        ", regex=True)
+    f.before_stmt("async_std::fs::rename(", "proof { lemma_ids_consec(ids, first, n_missing_all(entries@));"
+                  " assert(is_token_insertion(c, entries@, edited(c, entries@, ids)));"
+                  " declare_intended(w, path@, scratch_file.file.accepted()); }\n        ")
     # ---- reduce -------------------------------------------------------------------------------------
     f = u.real_fn(GEN, "reduce", scope=INS_SCOPE, owner="InsertReferencesProcessor", props=("C05", "C08", "C17"))
     rules.sig(f, ret="res")
